@@ -535,6 +535,10 @@ func runWorker(j workerJob) *workerResult {
 	timeout := j.timeout
 	if timeout == 0 {
 		timeout = 30 * time.Minute
+		if tier == "thorough" {
+			// (the workers of a thorough run stop by themselves after their -budget)
+			timeout = 150 * time.Minute
+		}
 	}
 	timer := time.AfterFunc(timeout, func() {
 		res.timedOut = true
